@@ -158,6 +158,17 @@ def one(rec, hub, seed, tier, i):
                 except Exception:
                     continue
                 rec.violation(MF, "from_df:merged-two-rows-of-one-entry-spelled-differently", {"allow_missing_values": am, "column": str(c0), "head": d2.tail(3).astype(str).to_dict("split")["data"]})
+    if layout == "long" and header in ("names", "letters") and not csv and i % 13 == 0:
+        singles = [c for c in df.reset_index().columns if c in info["dimcol_of"] and len(info["dimcol_of"][c][2]) == 1]
+        if singles:
+            d3 = df.reset_index() if df.index.names != [None] else df.copy()
+            d3[singles[0]] = 4242 if info["dimcol_of"][singles[0]][3] is int else "some other label"
+            rec.event(MF, sig=f"single-item-relabelled|nd={k}|{header}", cls="from_df|single-item-dimension-with-another-label")
+            try:
+                fd.FlodymArray.from_df(dims=dims, df=d3)
+                rec.violation(MF, "from_df:accepted-rows-labelled-with-an-unknown-item-of-a-single-item-dimension", {"column": str(singles[0]), "head": d3.head(3).astype(str).to_dict("split")["data"]})
+            except Exception:
+                pass
     types = "".join("i" if s[3] is int else "s" if s[3] is str else "u" for s in spec)
     sig = f"nd={k}|{types}|{layout}|{info['wide_dim']}|{header}|{in_index}|{vname == 'value'}|csv={csv}|omit={omit}|lens={[len(s[2]) for s in spec]}"
     rec.event(MF, sig=sig, cls=f"from_df|{layout}|{header}|idx={in_index}|csv={csv}",
